@@ -247,6 +247,11 @@ struct TreeSpec {
     failing_pre: bool,
     /// explicit path arguments (empty: search the current directory)
     paths: Vec<&'static str>,
+    /// symbolic links (link, target relative to the tree) — the tree is then
+    /// searched with -L
+    links: Vec<(&'static str, &'static str)>,
+    /// further arguments
+    extra: Vec<&'static str>,
 }
 
 fn trees() -> Vec<TreeSpec> {
@@ -264,6 +269,8 @@ fn trees() -> Vec<TreeSpec> {
             dangling: false,
             failing_pre: false,
             paths: vec![],
+            links: vec![],
+            extra: vec![],
         },
         TreeSpec {
             name: "two-dirs-unequal-sizes",
@@ -277,6 +284,8 @@ fn trees() -> Vec<TreeSpec> {
             dangling: false,
             failing_pre: false,
             paths: vec![],
+            links: vec![],
+            extra: vec![],
         },
         TreeSpec {
             name: "with-error",
@@ -284,6 +293,8 @@ fn trees() -> Vec<TreeSpec> {
             dangling: true,
             failing_pre: false,
             paths: vec![],
+            links: vec![],
+            extra: vec![],
         },
         TreeSpec {
             name: "failing-preprocessor",
@@ -298,6 +309,8 @@ fn trees() -> Vec<TreeSpec> {
             dangling: false,
             failing_pre: true,
             paths: vec![],
+            links: vec![],
+            extra: vec![],
         },
         // more root paths than threads: the initial messages are dealt out to
         // the workers' deques round-robin
@@ -313,6 +326,8 @@ fn trees() -> Vec<TreeSpec> {
             dangling: false,
             failing_pre: false,
             paths: vec!["r1", "r2", "r3", "r4", "e5.txt"],
+            links: vec![],
+            extra: vec![],
         },
         // an explicitly named file next to a traversed directory holding a
         // binary file: binary handling is per file (explicit vs implicit), not
@@ -330,6 +345,24 @@ fn trees() -> Vec<TreeSpec> {
             dangling: false,
             failing_pre: false,
             paths: vec!["top.txt", "dir", "other.txt"],
+            links: vec![],
+            extra: vec![],
+        },
+        // the size limit applies to what a followed link points to
+        TreeSpec {
+            name: "links-to-files-over-and-under-the-size-limit",
+            files: vec![
+                ("small.txt", "needle small\n".into()),
+                ("big.txt", format!("needle big\n{}", "pad pad pad pad\n".repeat(20))),
+                ("sub/x.txt", "needle x\n".into()),
+                ("store/large.dat", format!("needle behind a link\n{}", "pad pad pad pad\n".repeat(20))),
+                ("store/tiny.dat", "needle tiny\n".into()),
+            ],
+            dangling: false,
+            failing_pre: false,
+            paths: vec!["small.txt", "big.txt", "sub"],
+            links: vec![("sub/to-large.txt", "../store/large.dat"), ("sub/to-tiny.txt", "../store/tiny.dat"), ("sub/deep/to-large2.txt", "../../store/large.dat")],
+            extra: vec!["--max-filesize", "100"],
         },
     ]
 }
@@ -347,7 +380,7 @@ struct Obs {
 }
 
 impl Runner {
-    fn run(&self, mode: &ModeSpec, threads: usize, follow: bool, sort: bool, pre: bool, paths: &[&str], node: Option<&sched::Node>) -> Obs {
+    fn run(&self, mode: &ModeSpec, threads: usize, follow: bool, sort: bool, pre: bool, paths: &[&str], extra: &[&str], node: Option<&sched::Node>) -> Obs {
         let mut cmd = Command::new(&self.rg);
         cmd.current_dir(&self.dir).args(["--no-config", "--color", "never"]).arg(format!("-j{}", threads));
         if follow {
@@ -359,6 +392,7 @@ impl Runner {
         if sort {
             cmd.args(["--sort", "path"]);
         }
+        cmd.args(extra);
         for a in mode.args.iter() {
             cmd.arg(a);
         }
@@ -407,6 +441,11 @@ pub fn run(args: &Args) -> ! {
         if t.dangling {
             let _ = std::os::unix::fs::symlink(d.join("nonexistent"), d.join("z.lnk"));
         }
+        for (link, target) in t.links.iter() {
+            let lp = d.join(link);
+            std::fs::create_dir_all(lp.parent().unwrap()).unwrap_or_else(|_| machinery_error("scratch"));
+            let _ = std::os::unix::fs::symlink(target, &lp);
+        }
         if t.failing_pre {
             use std::os::unix::fs::PermissionsExt;
             let _ = std::fs::set_permissions(d.join("pre.sh"), std::fs::Permissions::from_mode(0o755));
@@ -441,7 +480,7 @@ pub fn run(args: &Args) -> ! {
             let runner = Runner { rg: rg.clone(), dir: scratch.path.join(t.name), trace_path: scratch.path.join(format!("trace-{}", ci)) };
             let mut acc = Acc::default();
             acc.configs += 1;
-            let reference = runner.run(mode, 1, t.dangling, sorted, t.failing_pre, &t.paths, None);
+            let reference = runner.run(mode, 1, t.dangling || !t.links.is_empty(), sorted, t.failing_pre, &t.paths, &t.extra, None);
             let ref_blocks = blocks(&reference.stdout, mode.split);
             let mut report = |acc: &mut Acc, why: String, node: &sched::Node, o: &Obs| {
                 if acc.disc.len() < 5 {
@@ -460,7 +499,7 @@ pub fn run(args: &Args) -> ! {
                     break;
                 }
                 budget -= 1;
-                let o = runner.run(mode, threads, t.dangling, sorted, t.failing_pre, &t.paths, Some(&node));
+                let o = runner.run(mode, threads, t.dangling || !t.links.is_empty(), sorted, t.failing_pre, &t.paths, &t.extra, Some(&node));
                 acc.schedules += 1;
                 let Some(trace) = &o.trace else {
                     // --sort forces a single thread: no parallel walk, no trace
@@ -548,7 +587,7 @@ pub fn run(args: &Args) -> ! {
     ev.set(
         "rule",
         format!(
-            "Every execution is the REAL rg binary (built with ignore/verif-hooks) on a scratch tree, its parallel walker's workers serialised by the cooperative replay scheduler installed from RG_VERIF_SCHED; explored: every interleaving of the hooked walker points with at most {} preemption(s) (budget {} schedules per configuration), for 6 trees (3-5 files of unequal size in 1-3 directories; one with a dangling symlink under -L; one searched through a --pre command that fails for two files after producing output; one given as five root paths, more than there are threads; one given as an explicit file, a directory holding two binary files, and another explicit file) x 9 output modes (no-heading, --heading, -C1, -c, -l, --files-without-match, --json, --files, -q) x threads {:?}, plus --sort path. Oracle: the same command at -j1: same exit status; stdout split into per-file blocks by the mode's own framing is a permutation of the single-threaded blocks, each file contiguous and once, separators exactly between blocks; with --sort byte-identical. states = distinct outputs produced; transitions = scheduling decisions executed; traces_validated_against_impl = schedules executed.",
+            "Every execution is the REAL rg binary (built with ignore/verif-hooks) on a scratch tree, its parallel walker's workers serialised by the cooperative replay scheduler installed from RG_VERIF_SCHED; explored: every interleaving of the hooked walker points with at most {} preemption(s) (budget {} schedules per configuration), for 7 trees (one with symbolic links to files above and below --max-filesize, searched with -L; 3-5 files of unequal size in 1-3 directories; one with a dangling symlink under -L; one searched through a --pre command that fails for two files after producing output; one given as five root paths, more than there are threads; one given as an explicit file, a directory holding two binary files, and another explicit file) x 9 output modes (no-heading, --heading, -C1, -c, -l, --files-without-match, --json, --files, -q) x threads {:?}, plus --sort path. Oracle: the same command at -j1: same exit status; stdout split into per-file blocks by the mode's own framing is a permutation of the single-threaded blocks, each file contiguous and once, separators exactly between blocks; with --sort byte-identical. states = distinct outputs produced; transitions = scheduling decisions executed; traces_validated_against_impl = schedules executed.",
             pbound, tier.pick(400, 6000), tier.pick(vec![2], vec![2, 3])
         ),
     );
